@@ -121,10 +121,20 @@ def run(chk: Check):
                        "and for random-uniform every value is bit-equal to a grid element"]
     chk.proof_stage(PROP_FILE)
     reqs, metas = [], []
+    reused = {}
     n_spaces = 12 if chk.tier == "quick" else 150
     for si in range(n_spaces + max(4, n_spaces // 3)):
         edge = si >= n_spaces      # targeted stream: grids that end one rounding error away from the declared bound
         sp, bounds, prec = gen_edge_space(rng, chk) if edge else gen_space(rng, chk, force_offset=si % 4 == 1)
+        tiny = (not edge) and si % 4 == 3
+        if tiny:
+            # a search space with fewer grid points than some batch sizes (2-9 points in all)
+            from black_it.search_space import SearchSpace
+            d = rng.randint(1, 2)
+            prec = [rng.choice([0.5, 1.0]) for _ in range(d)]
+            bounds = [[0.0] * d, [p * rng.randint(1, 2) for p in prec]]
+            sp = SearchSpace(bounds, prec, False)
+            chk.count("space:tiny")
         int_hist = (not edge) and si % 4 == 2
         if int_hist:
             from black_it.search_space import SearchSpace
@@ -137,10 +147,20 @@ def run(chk: Check):
         for name in NAMES:
             if name in ("GaussianProcessSampler", "CORSSampler") and sp.dims > 4 and chk.tier == "quick":
                 continue
-            bs = rng.randint(1, 4)
+            bs = rng.randint(1, 4) if not tiny else rng.randint(3, 7)
             opts = ch.random_opts(name, rng) if rng.random() < 0.6 else ch.SMALL_OPTS.get(name)
+            if tiny:
+                # default candidate pool (the option left at None), everything else small for speed
+                opts = {k: v for k, v in (ch.SMALL_OPTS.get(name) or {}).items() if k != "candidate_pool_size"}
             chk.count("options:" + ("random" if opts is not ch.SMALL_OPTS.get(name) else "default"))
-            smp = ch.make_builtin(name, bs, opts, rng.randrange(10 ** 6))
+            if name != "ParticleSwarmSampler" and name in reused and rng.random() < 0.4 and not tiny:
+                # a sampler object that has already served other search spaces (of other dimensions); the swarm sampler is excluded, it
+                # documents that it must be reset() between spaces
+                smp = reused[name]; bs = int(smp.batch_size)
+                chk.count("sampler_object:reused_across_spaces")
+            else:
+                smp = ch.make_builtin(name, bs, opts, rng.randrange(10 ** 6))
+                reused[name] = smp
             pts, losses = gen_history(rng, sp, rng.randint(max(bs, 4), 14), top=edge)
             if int_hist:
                 # an on-grid history whose values are whole numbers, held in an integer-dtype array (a hand-made initial design)
@@ -166,8 +186,12 @@ def run(chk: Check):
                         p0, l0 = pts.copy(), losses.copy()
                         try:
                             out = smp.sample(sp, pts, losses)
-                        except Exception as e:  # noqa: BLE001  third-party failure (e.g. GP on degenerate data) is not a C03 matter
-                            chk.count(f"skipped:{name}:{type(e).__name__}")
+                        except Exception as e:  # noqa: BLE001
+                            if name in ("GaussianProcessSampler", "CORSSampler", "RandomForestSampler", "XGBoostSampler"):
+                                chk.count(f"skipped:{name}:{type(e).__name__}")      # third-party failure (e.g. GP on degenerate data) is not a C03 matter
+                            else:
+                                chk.fail(f"{name}.sample raised {type(e).__name__}: {str(e)[:100]} on an admissible space and history (no batch at all)",
+                                         {"case": {"sampler": name, "bounds": bounds, "precision": prec, "batch_size": bs, "call": call}})
                             break
                 finally:
                     type(smp).sample_batch = orig_sb
